@@ -2,7 +2,7 @@
     Remove.  Only theorem statements closed by [exact]; proofs and the
     [Example]s showing that the hypotheses are satisfiable ([log0_emitted],
     [log0_run_quiescent], [log0_shape], [loop_state_reachable],
-    [finished_state_reachable], [cause_partial_nonvacuous]) are in
+    [finished_state_reachable], [cause_full_nonvacuous], [kf1_log_rejected_by_model]) are in
     Manager/ManagerProofs.v and Manager/ManagerProofs2.v.
 
     [run c init tr s]: the model of manager.go can produce the per-name log
